@@ -184,3 +184,24 @@ func (x *Pointer[T]) CompareAndSwap(o, n *T) bool {
 	}
 	return false
 }
+
+// And / Or (Go 1.23): return the old value.
+func AndInt32(p *int32, m int32) int32         { y(); o := *p; *p &= m; return o }
+func AndUint32(p *uint32, m uint32) uint32     { y(); o := *p; *p &= m; return o }
+func AndInt64(p *int64, m int64) int64         { y(); o := *p; *p &= m; return o }
+func AndUint64(p *uint64, m uint64) uint64     { y(); o := *p; *p &= m; return o }
+func AndUintptr(p *uintptr, m uintptr) uintptr { y(); o := *p; *p &= m; return o }
+func OrInt32(p *int32, m int32) int32          { y(); o := *p; *p |= m; return o }
+func OrUint32(p *uint32, m uint32) uint32      { y(); o := *p; *p |= m; return o }
+func OrInt64(p *int64, m int64) int64          { y(); o := *p; *p |= m; return o }
+func OrUint64(p *uint64, m uint64) uint64      { y(); o := *p; *p |= m; return o }
+func OrUintptr(p *uintptr, m uintptr) uintptr  { y(); o := *p; *p |= m; return o }
+
+func (x *Int32) And(m int32) int32    { y(); o := x.v; x.v &= m; return o }
+func (x *Int32) Or(m int32) int32     { y(); o := x.v; x.v |= m; return o }
+func (x *Int64) And(m int64) int64    { y(); o := x.v; x.v &= m; return o }
+func (x *Int64) Or(m int64) int64     { y(); o := x.v; x.v |= m; return o }
+func (x *Uint32) And(m uint32) uint32 { y(); o := x.v; x.v &= m; return o }
+func (x *Uint32) Or(m uint32) uint32  { y(); o := x.v; x.v |= m; return o }
+func (x *Uint64) And(m uint64) uint64 { y(); o := x.v; x.v &= m; return o }
+func (x *Uint64) Or(m uint64) uint64  { y(); o := x.v; x.v |= m; return o }
